@@ -48,15 +48,38 @@ pub fn finish(meta: RunMeta, mut acc: Acc, min_conclusive: u64) -> i32 {
     let out = std::io::stdout();
     let mut out = out.lock();
     // Known findings: one line per listed open finding of this property that was met in this run.
+    let mut repro_confirmed = 0u64;
     for f in db.iter().filter(|f| f.status == "open" && f.properties.iter().any(|p| p == &meta.property)) {
-        if let Some((n, eg)) = known.get(&f.id) {
-            let _ = writeln!(
-                out,
-                "KNOWN-FINDING: property={} {} — {} (met {} times this run, e.g. {})",
-                meta.property, f.id, f.what, n, eg
-            );
+        // the finding's own reproducers for this property are part of every run
+        let mut still = false;
+        for r in f.repros.iter().filter(|r| r["property"].as_str() == Some(meta.property.as_str())) {
+            let v = crate::props::violation_from_json(r);
+            if crate::props::violated(&v, &v.input.clone()) == Some(true) {
+                still = true;
+                repro_confirmed += 1;
+                break;
+            }
+        }
+        match known.get(&f.id) {
+            Some((n, eg)) => {
+                let _ = writeln!(
+                    out,
+                    "KNOWN-FINDING: property={} {} — {} (met {} times this run, e.g. {}{})",
+                    meta.property,
+                    f.id,
+                    util::clip(&f.what, 400),
+                    n,
+                    eg,
+                    if still { "; reproducer still fails" } else { "" }
+                );
+            }
+            None if still => {
+                let _ = writeln!(out, "KNOWN-FINDING: property={} {} — {} (reproducer still fails)", meta.property, f.id, util::clip(&f.what, 400));
+            }
+            None => {}
         }
     }
+    acc.count("known_finding_reproducers_confirmed", repro_confirmed);
     fresh.sort_by(|a, b| (a.input.len(), &a.input).cmp(&(b.input.len(), &b.input)));
     let total_fresh = fresh.len();
     for v in fresh.iter().take(25) {
